@@ -643,6 +643,48 @@ func registerReflect(m *Machine) {
 		}
 		return Const(64, uint64(n))
 	}
+	N["reflect.Append"] = func(m *Machine, fr *Frame, a []Value) Value {
+		sv := rvArg(a[0])
+		st, ok := sv.T.Underlying().(*types.Slice)
+		if !ok {
+			m.reflectPanic(fr, "reflect.Append: not a slice")
+		}
+		cur := sv.get().(Slice)
+		out := cur
+		for _, x := range a[1].(Slice).A {
+			xv := x.(RV)
+			var val Value
+			if _, isI := st.Elem().Underlying().(*types.Interface); isI {
+				if _, xI := xv.T.Underlying().(*types.Interface); xI {
+					val = xv.get()
+				} else {
+					val = Iface{T: xv.T, V: copyVal(xv.get())}
+				}
+			} else {
+				if !types.AssignableTo(xv.T, st.Elem()) {
+					m.reflectPanic(fr, fmt.Sprintf("reflect.Append: value of type %v is not assignable to type %v", xv.T, st.Elem()))
+				}
+				val = copyVal(xv.get())
+			}
+			n := len(out.A)
+			if n < cap(out.A) {
+				r := out.A[:n+1]
+				m.store(&r[n], val)
+				out = Slice{A: r}
+			} else {
+				nc := 2 * cap(out.A)
+				if nc < 4 {
+					nc = 4
+				}
+				m.noteAlloc(fr, int64(nc)*m.sizeof(st.Elem()))
+				ns := m.makeSliceNoNote(st.Elem(), n+1, nc)
+				copy(ns.A, out.A)
+				ns.A[n] = val
+				out = ns
+			}
+		}
+		return RV{T: sv.T, V: out}
+	}
 	N["reflect.DeepEqual"] = func(m *Machine, fr *Frame, a []Value) Value {
 		return m.deepEqual(fr, a[0], a[1], nil, 0)
 	}
